@@ -616,7 +616,7 @@ def run_task(task):
                     "    except Violation as v:\n"
                     "        out = v.to_json(); break\n"
                     "print(json.dumps({'n': n, 'violation': out}))\n") % VERIF
-            for flag in ("-O", "-OO", "-Werror"):
+            for flag in ("-O", "-OO", "-Werror", "-bb", "-Xdev"):
                 r = subprocess.run([sys.executable, "-B", flag, "-c", code], capture_output=True, text=True,
                                    env=dict(os.environ, VERIF_REPO=REPO, PYTHONHASHSEED="0"))
                 if r.returncode != 0:
